@@ -276,8 +276,15 @@ def run(tier):
     ck.rule("R2.json-cycle-refusal", "the JSON exporter's recursion is dominated by the visited-set test and undone on exit", floor=1)
     ex = fx.fns.get("interpreter::builtins::json::js_value_to_json_with_visited")
     if ck.anchor(ex is not None, "json::js_value_to_json_with_visited"):
-        rec = [(bi, t) for bi, t in ex.calls() if t[1].get("d") == ex.path]
+        # recursion sites: direct self calls, and calls of helpers through which the exporter reaches itself again (`enum_to_json`)
+        cg, _ = fx.callgraph()
+        back = set()
+        for p2 in fx.fns:
+            if p2 != ex.path and ex.path in M.reachable_fns(fx, [p2]) and p2.startswith("interpreter::builtins::json::"):
+                back.add(p2)
+        rec = [(bi, t) for bi, t in ex.calls() if t[1].get("d") == ex.path or t[1].get("d") in back]
         tests = []
+        inserts = []
         for bi, t in ex.calls():
             if re.search(r"HashSet::<[^>]*>::contains$", t[1].get("d", "")) and t[4] >= 0:
                 blk = ex.blocks[t[4]]
@@ -286,7 +293,13 @@ def run(tier):
                     false_t = next((x for v, x in sw[2] if v == "0"), None)
                     if false_t is not None:
                         tests.append((t[4], false_t))
-        inserts = [bi for bi, t in ex.calls() if re.search(r"HashSet::<[^>]*>::insert$", t[1].get("d", ""))]
+            # `if !visited.insert(id) { refuse }`: insert() answers whether the id was new - test and record in one call
+            if re.search(r"HashSet::<[^>]*>::insert$", t[1].get("d", "")) and t[4] >= 0:
+                sw = ex.blocks[t[4]]["t"]
+                if sw[0] == "switch" and sw[1][0] in ("c", "m") and sw[1][1][0] == t[3][0]:
+                    tests.append((t[4], sw[3]))     # the `true` (newly inserted) edge
+                    inserts.append(sw[3])
+        inserts += [bi for bi, t in ex.calls() if re.search(r"HashSet::<[^>]*>::insert$", t[1].get("d", ""))]
         removes = [bi for bi, t in ex.calls() if re.search(r"HashSet::<[^>]*>::remove$", t[1].get("d", ""))]
         ck.anchor(bool(rec), "recursive call in the exporter")
         for bi, t in rec:
